@@ -92,6 +92,11 @@ def shards(tier):
             if accepts(h, k):
                 # mode needs a 4-element group for a tie between two values that each occur twice
                 out.append({"mode": "inputs", "helper": h, "kind": k, "n": max(n, 4) if h == "mode" else n})
+    # columns in the other byte order (data read from big-endian binary formats): eligible or not, the two settings agree
+    for h in ("max", "first", "count_unique", "mean", "sum", "mode"):
+        for k in ("D", "f8", "i8"):
+            if accepts(h, k):
+                out.append({"mode": "inputs", "helper": h, "kind": k, "n": 2, "__env__": {"MC_ARRAY_FORM": "swapped"}})
     # (c) two helpers in the SAME aggregate call: every ordered pair, so that one kernel's side effects
     #     on the shared group-sorted column are seen by the other
     for k in (["f8", "i8", "D"] if tier == "quick" else KINDS):
